@@ -395,6 +395,35 @@ theorem execCore_guards : ∀ (o : Op) (m : M), GuardsKept m (execCore o m)
     | ok m1 => rw [hr] at h; exact ⟨h.1, rfl⟩
     | err m1 => trivial
     | crash w m1 => trivial
+  | .vital isMaster body, m => by
+    simp only [execCore]
+    cases isMaster
+    · simp only [Bool.false_eq_true, ↓reduceIte]
+      split
+      · exact raise_guardsKept _ _ _
+      · have h := exec_guards body { m with vs := Slot.handler fixNamesId :: m.vs, savedMasterName := m.masterName, savedSimulName := m.simulName, simulName := 0 }
+        cases hr : exec body { m with vs := Slot.handler fixNamesId :: m.vs, savedMasterName := m.masterName, savedSimulName := m.simulName, simulName := 0 } with
+        | ok m1 =>
+          rw [hr] at h
+          simp only [vitalFinish]
+          cases hd : dropTop m1 with
+          | none => trivial
+          | some m2 => have g := dropTop_guards hd; exact ⟨g.1.trans h.1, g.2.trans h.2⟩
+        | err m1 => trivial
+        | crash w m1 => trivial
+    · simp only [↓reduceIte]
+      split
+      · exact raise_guardsKept _ _ _
+      · have h := exec_guards body { m with vs := Slot.handler fixNamesId :: m.vs, savedMasterName := m.masterName, savedSimulName := m.simulName, masterName := 0 }
+        cases hr : exec body { m with vs := Slot.handler fixNamesId :: m.vs, savedMasterName := m.masterName, savedSimulName := m.simulName, masterName := 0 } with
+        | ok m1 =>
+          rw [hr] at h
+          simp only [vitalFinish]
+          cases hd : dropTop m1 with
+          | none => trivial
+          | some m2 => have g := dropTop_guards hd; exact ⟨g.1.trans h.1, g.2.trans h.2⟩
+        | err m1 => trivial
+        | crash w m1 => trivial
   | .verb v body, m => by
     simp only [execCore]
     have h := exec_guards body { m with lastVerb := v }
